@@ -74,49 +74,75 @@ pub struct TwoConnResult {
     pub saw_post: bool,
 }
 
-fn setup(fx: &Fixture, op: &OpDef, wal: bool) -> (Wallet, Connection) {
-    let mut w = db::new_wallet(&fx.u, 4, true);
-    db::restore(w.db.conn_mut(), &fx.pres[op.pre]);
-    w.refresh_accounts();
+/// A file-backed wallet plus a second connection to the same file, reused across experiments of
+/// one worker (creating a wallet runs every schema migration, which dominated the cost).
+pub struct Pair {
+    pub w: Wallet,
+    pub reader: Connection,
+    pub wal: bool,
+}
+
+pub fn new_pair(fx: &Fixture, wal: bool) -> Pair {
+    let w = db::new_wallet(&fx.u, 4, true);
     if wal {
         let mode: String = w.db.conn().query_row("PRAGMA journal_mode=WAL", [], |r| r.get(0)).expect("journal mode");
         assert_eq!(mode.to_lowercase(), "wal");
     }
-    let path = db_path(w.db.conn());
-    let reader = Connection::open(&path).expect("second connection");
+    let reader = Connection::open(db_path(w.db.conn())).expect("second connection");
     rusqlite::vtab::array::load_module(&reader).expect("array module");
-    (w, reader)
+    Pair { w, reader, wal }
+}
+
+/// Worker state: one pair per journal mode, created on first use.
+#[derive(Default)]
+pub struct Pairs(pub [Option<Pair>; 2]);
+impl Pairs {
+    pub fn get(&mut self, fx: &Fixture, wal: bool) -> &mut Pair {
+        let slot = &mut self.0[wal as usize];
+        if slot.is_none() {
+            *slot = Some(new_pair(fx, wal));
+        }
+        slot.as_mut().unwrap()
+    }
+}
+
+fn load(pair: &mut Pair, snap: &db::Snapshot) {
+    pair.reader.progress_handler(0, None::<fn() -> bool>);
+    pair.w.db.conn().progress_handler(0, None::<fn() -> bool>);
+    db::restore(pair.w.db.conn_mut(), snap);
+    pair.w.refresh_accounts();
+    pair.reader.flush_prepared_statement_cache();
 }
 
 /// Class 4.
-pub fn writer_observed(fx: &Fixture, op: &OpDef, wal: bool, period: u64) -> Result<TwoConnResult, String> {
-    let (mut w, reader) = setup(fx, op, wal);
-    let pre = observe(&reader, fx).ok_or("cannot observe the pre-state")?;
+pub fn writer_observed(fx: &Fixture, pair: &mut Pair, op: &OpDef, period: u64) -> Result<TwoConnResult, String> {
+    load(pair, &fx.pres[op.pre]);
+    let wal = pair.wal;
+    let pre = observe(&pair.reader, fx).ok_or("cannot observe the pre-state")?;
     let obs: Arc<Mutex<Vec<Option<(String, String)>>>> = Arc::new(Mutex::new(vec![]));
-    let reader = Arc::new(Mutex::new(reader));
     {
         let obs = obs.clone();
-        let reader = reader.clone();
-        // SAFETY of the raw pointer: the fixture outlives the handler, which is removed below.
+        // Raw pointers: the fixture and the reader connection outlive the handler, which is removed
+        // below, and everything runs on this one thread.
         let fxp = fx as *const Fixture as usize;
+        let rp = &pair.reader as *const Connection as usize;
         let n = AtomicU64::new(0);
-        w.db.conn().progress_handler(
+        pair.w.db.conn().progress_handler(
             1,
             Some(move || {
                 let k = n.fetch_add(1, Ordering::Relaxed) + 1;
                 if k % period == 0 {
                     let fx: &Fixture = unsafe { &*(fxp as *const Fixture) };
-                    let r = reader.lock().unwrap();
-                    obs.lock().unwrap().push(observe(&r, fx));
+                    let r: &Connection = unsafe { &*(rp as *const Connection) };
+                    obs.lock().unwrap().push(observe(r, fx));
                 }
                 false
             }),
         );
     }
-    let r = run_op(op, &mut w, fx);
-    w.db.conn().progress_handler(0, None::<fn() -> bool>);
-    let reader = reader.lock().unwrap();
-    let post = observe(&reader, fx).ok_or("cannot observe the post-state")?;
+    let r = run_op(op, &mut pair.w, fx);
+    pair.w.db.conn().progress_handler(0, None::<fn() -> bool>);
+    let post = observe(&pair.reader, fx).ok_or("cannot observe the post-state")?;
     let obs = obs.lock().unwrap();
     let mut res = TwoConnResult { observations: 0, busy: 0, distinct: 0, saw_pre: false, saw_post: false };
     let mut distinct = std::collections::BTreeSet::new();
@@ -155,36 +181,36 @@ pub fn writer_observed(fx: &Fixture, op: &OpDef, wal: bool, period: u64) -> Resu
 }
 
 /// Class 5.
-pub fn reader_interrupted(fx: &Fixture, op: &OpDef, wal: bool, at_step: u64) -> Result<String, String> {
-    let (w, reader) = setup(fx, op, wal);
-    let pre = summary_of(&reader, fx)?;
-    let w = Arc::new(Mutex::new(w));
+pub fn reader_interrupted(fx: &Fixture, pair: &mut Pair, op: &OpDef, at_step: u64) -> Result<String, String> {
+    load(pair, &fx.pres[op.pre]);
+    let wal = pair.wal;
+    let pre = summary_of(&pair.reader, fx)?;
     let wrote: Arc<Mutex<Option<Result<String, String>>>> = Arc::new(Mutex::new(None));
     {
-        let w = w.clone();
         let wrote = wrote.clone();
         let fxp = fx as *const Fixture as usize;
         let opp = op as *const OpDef as usize;
+        let wp = &mut pair.w as *mut Wallet as usize;
         let n = AtomicU64::new(0);
-        reader.progress_handler(
+        pair.reader.progress_handler(
             1,
             Some(move || {
                 let k = n.fetch_add(1, Ordering::Relaxed) + 1;
                 if k == at_step {
                     let fx: &Fixture = unsafe { &*(fxp as *const Fixture) };
                     let op: &OpDef = unsafe { &*(opp as *const OpDef) };
-                    let mut w = w.lock().unwrap();
-                    *wrote.lock().unwrap() = Some(run_op(op, &mut w, fx));
+                    let w: &mut Wallet = unsafe { &mut *(wp as *mut Wallet) };
+                    *wrote.lock().unwrap() = Some(run_op(op, w, fx));
                 }
                 false
             }),
         );
     }
-    let got = summary_of(&reader, fx);
-    reader.progress_handler(0, None::<fn() -> bool>);
+    let got = summary_of(&pair.reader, fx);
+    pair.reader.progress_handler(0, None::<fn() -> bool>);
     let wrote = wrote.lock().unwrap().clone();
     let Some(wres) = wrote else { return Ok("reader-finished-before-step".into()) };
-    let post = summary_of(&reader, fx)?;
+    let post = summary_of(&pair.reader, fx)?;
     let got = got.map_err(|e| format!("{}: get_wallet_summary failed while the writer ran at its step {at_step}: {e}", op.name))?;
     if got == pre {
         Ok(if wres.is_ok() { "summary==pre,writer-ok".into() } else { "summary==pre,writer-blocked".into() })
@@ -201,19 +227,19 @@ pub fn reader_interrupted(fx: &Fixture, op: &OpDef, wal: bool, at_step: u64) -> 
 }
 
 /// Number of VM steps of an uninterrupted get_wallet_summary on the op's pre-state.
-pub fn reader_steps(fx: &Fixture, op: &OpDef) -> u64 {
-    let (_w, reader) = setup(fx, op, false);
+pub fn reader_steps(fx: &Fixture, pair: &mut Pair, op: &OpDef) -> u64 {
+    load(pair, &fx.pres[op.pre]);
     let n = Arc::new(AtomicU64::new(0));
     let c = n.clone();
-    reader.progress_handler(
+    pair.reader.progress_handler(
         1,
         Some(move || {
             c.fetch_add(1, Ordering::Relaxed);
             false
         }),
     );
-    let _ = summary_of(&reader, fx);
-    reader.progress_handler(0, None::<fn() -> bool>);
+    let _ = summary_of(&pair.reader, fx);
+    pair.reader.progress_handler(0, None::<fn() -> bool>);
     n.load(Ordering::Relaxed)
 }
 
@@ -243,64 +269,56 @@ fn mig_writer(name: &str, w: &mut Wallet, fx: &Fixture) -> Result<String, String
     }
 }
 
-fn mig_setup(fx: &Fixture, rd: &MigRead, wal: bool) -> (Wallet, Connection) {
-    let mut w = db::new_wallet(&fx.u, 4, true);
-    db::restore(w.db.conn_mut(), &fx.pres[1]);
-    w.refresh_accounts();
-    (rd.setup)(&mut w, &fx.u);
-    if wal {
-        let _: String = w.db.conn().query_row("PRAGMA journal_mode=WAL", [], |r| r.get(0)).expect("journal mode");
-    }
-    let reader = Connection::open(db_path(w.db.conn())).expect("second connection");
-    rusqlite::vtab::array::load_module(&reader).expect("array module");
-    (w, reader)
+fn mig_load(fx: &Fixture, pair: &mut Pair, rd: &MigRead) {
+    load(pair, &fx.pres[1]);
+    (rd.setup)(&mut pair.w, &fx.u);
 }
 
-pub fn mig_reader_steps(fx: &Fixture, rd: &MigRead) -> u64 {
-    let (w, reader) = mig_setup(fx, rd, false);
+pub fn mig_reader_steps(fx: &Fixture, pair: &mut Pair, rd: &MigRead) -> u64 {
+    mig_load(fx, pair, rd);
     let n = Arc::new(AtomicU64::new(0));
     let c = n.clone();
-    reader.progress_handler(
+    pair.reader.progress_handler(
         1,
         Some(move || {
             c.fetch_add(1, Ordering::Relaxed);
             false
         }),
     );
-    let _ = (rd.read)(&reader, &fx.u, w.acct_a);
-    reader.progress_handler(0, None::<fn() -> bool>);
+    let _ = (rd.read)(&pair.reader, &fx.u, pair.w.acct_a);
+    pair.reader.progress_handler(0, None::<fn() -> bool>);
     n.load(Ordering::Relaxed)
 }
 
-pub fn mig_reader_interrupted(fx: &Fixture, rd: &MigRead, writer: &'static str, wal: bool, at_step: u64) -> Result<String, String> {
-    let (w, reader) = mig_setup(fx, rd, wal);
-    let acct = w.acct_a;
-    let pre = (rd.read)(&reader, &fx.u, acct).map_err(|e| format!("MACHINERY: {}: pre-state read failed: {e}", rd.name))?;
-    let w = Arc::new(Mutex::new(w));
+pub fn mig_reader_interrupted(fx: &Fixture, pair: &mut Pair, rd: &MigRead, writer: &'static str, at_step: u64) -> Result<String, String> {
+    mig_load(fx, pair, rd);
+    let wal = pair.wal;
+    let acct = pair.w.acct_a;
+    let pre = (rd.read)(&pair.reader, &fx.u, acct).map_err(|e| format!("MACHINERY: {}: pre-state read failed: {e}", rd.name))?;
     let wrote: Arc<Mutex<Option<Result<String, String>>>> = Arc::new(Mutex::new(None));
     {
-        let w = w.clone();
         let wrote = wrote.clone();
         let fxp = fx as *const Fixture as usize;
+        let wp = &mut pair.w as *mut Wallet as usize;
         let n = AtomicU64::new(0);
-        reader.progress_handler(
+        pair.reader.progress_handler(
             1,
             Some(move || {
                 let k = n.fetch_add(1, Ordering::Relaxed) + 1;
                 if k == at_step {
                     let fx: &Fixture = unsafe { &*(fxp as *const Fixture) };
-                    let mut w = w.lock().unwrap();
-                    *wrote.lock().unwrap() = Some(mig_writer(writer, &mut w, fx));
+                    let w: &mut Wallet = unsafe { &mut *(wp as *mut Wallet) };
+                    *wrote.lock().unwrap() = Some(mig_writer(writer, w, fx));
                 }
                 false
             }),
         );
     }
-    let got = (rd.read)(&reader, &fx.u, acct);
-    reader.progress_handler(0, None::<fn() -> bool>);
+    let got = (rd.read)(&pair.reader, &fx.u, acct);
+    pair.reader.progress_handler(0, None::<fn() -> bool>);
     let wrote = wrote.lock().unwrap().clone();
     let Some(wres) = wrote else { return Ok("reader-finished-before-step".into()) };
-    let post = (rd.read)(&reader, &fx.u, acct).map_err(|e| format!("MACHINERY: {}: post-state read failed: {e}", rd.name))?;
+    let post = (rd.read)(&pair.reader, &fx.u, acct).map_err(|e| format!("MACHINERY: {}: post-state read failed: {e}", rd.name))?;
     let got = got.map_err(|e| format!("{}: the read failed while the writer {writer} ran at its VM step {at_step}: {e}", rd.name))?;
     if got == pre {
         Ok(format!("answer==pre,writer-{}", if wres.is_ok() { "ok" } else { "blocked" }))
